@@ -43,6 +43,7 @@ def run(ctx: Ctx):
     r11_3(ctx)
     r11_4(ctx)
     r11_5(ctx)
+    r11_6(ctx)
 
 
 def r11_1_2(ctx: Ctx):
@@ -152,21 +153,41 @@ def r11_3(ctx: Ctx, rule="R11.3"):
     n = 0
     for p in enum_paths(l.body):
         matched = None
+        newblk_cond = None
         for t, o in p.conds():
-            if window in norm(t) and pattern in norm(t) and ".all()" in norm(t):
-                matched = o
+            tt, neg = t, False
+            while isinstance(tt, ast.UnaryOp) and isinstance(tt.op, ast.Not):
+                tt, neg = tt.operand, not neg
+            txt = norm(tt)
+            if window in txt and pattern in txt and ".all()" in txt:
+                eq = "==" in txt and "!=" not in txt
+                matched = (o != neg) if eq else None
+                if not eq:
+                    ctx.ob(rule, f, t, False, "a run matches when every residue kind in the window equals the pattern "
+                           "(`(window == pattern).all()`) -- the test is `%s`" % norm(t), node=t)
+            if norm(tt) == "new_block":
+                newblk_cond = (o != neg)
         if matched is None:
-            continue
+            # a path that never evaluates the match test is a 'no instance here' path as well
+            matched = False
         n += 1
         st = p.stmts()
         rec_new = [s for s in st if isinstance(s, ast.Expr) and isinstance(s.value, ast.Call) and call_name(s.value) == "append"
                    and attr_chain(s.value.func.value) == "self._molecules_ordered"]
         rec_inc = [s for s in st if isinstance(s, ast.AugAssign) and norm(s.target) == "self._molecules_ordered[-1][2]"
-                   and const_int(s.value) == 1]
+                   and const_int(s.value) == 1 and isinstance(s.op, ast.Add)]
+        bad_inc = [s for s in st if isinstance(s, ast.AugAssign) and norm(s.target).startswith("self._molecules_ordered[") and s not in rec_inc]
+        if bad_inc:
+            ctx.ob(rule, f, bad_inc[0], False, "the count of the current block is incremented by one per instance -- `%s`" % norm(bad_inc[0]), node=bad_inc[0])
         consume = [s for s in st if isinstance(s, ast.Assign) and norm(s.targets[0]) == window and const_int(s.value) == -1]
         adv = [s for s in st if isinstance(s, ast.AugAssign) and norm(s.target) == start and isinstance(s.op, ast.Add)]
         if matched:
             ok = len(rec_new) + len(rec_inc) == 1 and len(consume) == 1 and len(adv) == 1 and norm(adv[0].value) == plen
+            # a new block is opened exactly when the previous residue did not belong to a run of this species
+            if newblk_cond is not None:
+                ok = ok and ((newblk_cond and len(rec_new) == 1) or (not newblk_cond and len(rec_inc) == 1))
+                if newblk_cond:
+                    ok = ok and any(isinstance(s_, ast.Assign) and norm(s_.targets[0]) == "new_block" and norm(s_.value) == "False" for s_ in st)
             if rec_new:
                 a = rec_new[0].value.args[0]
                 ok = ok and isinstance(a, (ast.List, ast.Tuple)) and [norm(e) for e in a.elts] == [molidx, start, "1"] \
@@ -197,6 +218,50 @@ def r11_3(ctx: Ctx, rule="R11.3"):
     okm = bool(mi) and bool(ap) and norm(mi[0].value) == "len(self.different_molecules)" and mi[0].lineno < ap[0].lineno
     ctx.ob(rule, add, mi[0] if mi else "molecule index", okm,
            "the kind index is the position the new molecule takes in different_molecules", node=mi[0] if mi else add.node)
+
+
+def r11_6(ctx: Ctx, rule="R11.6"):
+    f = ctx.func("System._check_index_in_available_mgro")
+    add = ctx.func("System.add_molecule_top")
+    pat = [p_ for p_ in f.params if p_ != "self"][0]
+    loops = [n_ for n_ in walk_no_nested(f.node) if isinstance(n_, ast.For) and "enumerate(self._available_mgro_ordered)" in norm(n_.iter)]
+    ok = False
+    why = "search loop not recognised"
+    if loops and isinstance(loops[0].target, ast.Tuple):
+        i, v = [norm(e) for e in loops[0].target.elts]
+        L = [norm(s_.targets[0]) for s_ in f.node.body if isinstance(s_, ast.Assign) and norm(s_.value) == "len(%s)" % pat]
+        Ln = L[0] if L else "len(%s)" % pat
+        win = "self._available_mgro_ordered[%s:%s + %s]" % (i, i, Ln)
+        assigns = [s_ for s_ in walk_no_nested(loops[0]) if isinstance(s_, ast.Assign) and norm(s_.value) == i]
+        ok = bool(assigns)
+        why = ""
+        if ok:
+            pmf = parents_map(f.node)
+            gs = [(norm(t), pol) for t, pol in guards_of(assigns[0], pmf)]
+            full = [(t, pol) for t, pol in gs if win in t]
+            pre = [(t, pol) for t, pol in gs if win not in t]
+            ok = len(full) == 1 and full[0][1] and full[0][0].replace(" ", "") == ("(%s==%s).all()" % (win, pat)).replace(" ", "") \
+                and all(t.replace(" ", "") == ("%s==%s[0]" % (v, pat)).replace(" ", "") and pol for t, pol in pre)
+            blk = [s_ for s_ in walk_no_nested(loops[0]) if isinstance(s_, ast.Break)]
+            ok = ok and bool(blk)
+            why = "guards of the hit: %s" % gs
+    ctx.ob(rule, f, loops[0] if loops else "run search", ok,
+           "the run search returns the first position where the window of residue kinds equals the species' pattern"
+           + ("" if ok else " -- " + why), node=loops[0] if loops else f.node)
+    nf = [n_ for n_ in walk_no_nested(f.node) if isinstance(n_, ast.If) and norm(n_.test) == "start_index is None" and branch_raises(n_.body)]
+    ctx.ob(rule, f, nf[0] if nf else "not-found test", bool(nf), "no matching run means the topology is refused (raise)", node=nf[0] if nf else f.node)
+    # signature lookup and first-instance residues in add_molecule_top
+    sig = [n_ for n_ in walk_no_nested(add.node) if isinstance(n_, ast.If) and isinstance(n_.test, ast.Compare)
+           and isinstance(n_.test.ops[0], ast.NotIn) and branch_raises(n_.body)]
+    ctx.ob(rule, add, sig[0] if sig else "signature lookup", bool(sig) and norm(sig[0].test.comparators[0]) == "gro_mols_resnames",
+           "a residue signature (name, atom count) that does not occur in the coordinate file refuses the topology", node=sig[0] if sig else add.node)
+    rs = [s_ for s_ in add.node.body if isinstance(s_, ast.Assign) and norm(s_.targets[0]) == "residues"]
+    okr = bool(rs) and norm(rs[0].value).replace(" ", "") == "self.system_gro[start_index:start_index+len(index_mol_gro)]"
+    ctx.ob(rule, add, rs[0] if rs else "first instance", okr,
+           "the species' template molecule is built from the residues of the first matching run", node=rs[0] if rs else add.node)
+    mk = [c for c in calls_in(add.node) if call_name(c) == "Molecule"]
+    ctx.ob(rule, add, mk[0] if mk else "Molecule(...)", bool(mk) and [norm(a) for a in mk[0].args] == [add.params[1], "residues"],
+           "the template is checked against the topology (Molecule(topology, residues))", node=mk[0] if mk else add.node)
 
 
 def _telescopes(gen: Func, ctx: Ctx, rule: str):
@@ -276,19 +341,7 @@ def r11_4(ctx: Ctx, rule="R11.4"):
                 gens.add(f.name)
     ctx.ob(rule, gi, "accessors using the block generator: %s" % sorted(gens), gens == {"__iter__", "__getitem__"},
            "iteration and indexing enumerate instances with the same generator", node=gi.node)
-    # -1 / islice idiom in both containers
-    for nm in ("System.__getitem__", "SystemGro.__getitem__"):
-        g = ctx.func(nm)
-        txt = ast.unparse(g.node)
-        ok = "index == -1" in txt and "last(self._molecules_ordered_all_gen())" in txt \
-            and "islice_extended(self._molecules_ordered_all_gen(), index, index + 1)" in txt \
-            and "islice_extended(self._molecules_ordered_all_gen(), index.start, index.stop, index.step)" in txt
-        ctx.ob(rule, g, "%s: int / -1 / slice branches" % nm, ok,
-               "integer indexing takes element [index, index+1) of the generator (the last one for -1, where that window "
-               "would be empty) and slicing passes start/stop/step through", node=g.node)
-        hs = [h for h in ast.walk(g.node) if isinstance(h, ast.ExceptHandler)]
-        okh = any(norm(h.type) == "StopIteration" and branch_raises(h.body) and "IndexError" in ast.unparse(h) for h in hs)
-        ctx.ob(rule, g, "%s: out of range" % nm, okh, "an index past the end raises IndexError", node=g.node)
+    accessor_branches(ctx, rule, ("System.__getitem__", "SystemGro.__getitem__"))
     # counting accessors read the same block list
     okl = norm(ln.node.body[-1]).replace(" ", "") in ("returnsum((elem[2]foreleminself._molecules_ordered))",
                                                       "returnsum(elem[2]foreleminself._molecules_ordered)")
@@ -297,6 +350,27 @@ def r11_4(ctx: Ctx, rule="R11.4"):
     flat = txt.replace("(", "").replace(")", "")
     okc = "for index, _, ammount in self._molecules_ordered" in flat and "composition[self.different_molecules[index].name] += ammount" in txt
     ctx.ob(rule, comp, "composition", okc, "the composition adds each block's count to its species", node=comp.node)
+
+
+def accessor_branches(ctx: Ctx, rule: str, names):
+    # -1 / islice idiom in both containers
+    for nm in names:
+        g = ctx.func(nm)
+        txt = ast.unparse(g.node)
+        ok = "islice_extended(self._molecules_ordered_all_gen(), index.start, index.stop, index.step)" in txt
+        m1 = [n_ for n_ in ast.walk(g.node) if isinstance(n_, ast.If) and norm(n_.test).replace(" ", "") in ("index==-1", "-1==index")]
+        ok = ok and bool(m1) and "last(self._molecules_ordered_all_gen())" in ast.unparse(ast.Module(m1[0].body, [])) \
+            and "islice_extended(self._molecules_ordered_all_gen(), index, index + 1)" in ast.unparse(ast.Module(m1[0].orelse, []))
+        sl = [n_ for n_ in ast.walk(g.node) if isinstance(n_, ast.If) and norm(n_.test) == "isinstance(index, slice)"]
+        it_ = [n_ for n_ in ast.walk(g.node) if isinstance(n_, ast.If) and norm(n_.test) == "isinstance(index, int)"]
+        ok = ok and bool(sl) and bool(it_) and "index.start" in ast.unparse(ast.Module(sl[0].body, [])) \
+            and any(x is m1[0] for x in ast.walk(ast.Module(it_[0].body, []))) if m1 else False
+        ctx.ob(rule, g, "%s: int / -1 / slice branches" % nm, ok,
+               "integer indexing takes element [index, index+1) of the generator (the last one for -1, where that window "
+               "would be empty) and slicing passes start/stop/step through", node=g.node)
+        hs = [h for h in ast.walk(g.node) if isinstance(h, ast.ExceptHandler)]
+        okh = any(norm(h.type) == "StopIteration" and branch_raises(h.body) and "IndexError" in ast.unparse(h) for h in hs)
+        ctx.ob(rule, g, "%s: out of range" % nm, okh, "an index past the end raises IndexError", node=g.node)
 
 
 def r11_5(ctx: Ctx, rule="R11.5"):
